@@ -1,5 +1,213 @@
 /-
-C08 — property theorems (stub: not built yet).
+C08 — Returned matches are well-formed and index conversion is exact.
+
+Property theorems about the models `RegexVerif.Model.Utf8` (rune index → byte index: match.go
+`stringByteOffsets`/`runeByteOffsets`/`byteRange`, regexp.go `newStringByteMapper`/`byteIndex`,
+compat `bytesToRunesAndOffsets`/`readRunes`, the rune-start lookup) and
+`RegexVerif.Model.MatchBuilder` (the capture arrays of match.go).  The models are tied to the Go
+source by the correspondence legs of harness/internal/legs/c08.go.
+
+A string is a list of segments `(rune, width)` as produced by Go's `for range` decoding; `WF` is the
+unicode/utf8 decoding contract (invalid byte = U+FFFD of width 1, literal U+FFFD = width 3, otherwise
+width = `utf8.RuneLen`).  `byteOffsetSpec segs i` = sum of the widths of the first `i` segments.
 -/
+import RegexVerif.Lemmas.Utf8
+
 namespace RegexVerif.Props.C08
+open RegexVerif RegexVerif.Utf8 RegexVerif.Lemmas.Utf8
+
+/-- a string mixing 1–4 byte runes, a literal U+FFFD (3 bytes) and two invalid bytes (U+FFFD, 1 byte):
+    `"a" "é" <0xff> "€" U+FFFD "😀" <0x80> "z"` -/
+def sample : List (Int × Nat) :=
+  [(97, 1), (0xE9, 2), (0xFFFD, 1), (0x20AC, 3), (0xFFFD, 3), (0x1F600, 4), (0xFFFD, 1), (122, 1)]
+
+theorem sample_wf : WF sample := by decide
+
+/-! ### the three string mappers and the two adapter tables are exact -/
+
+/-- **`stringByteOffsets` is the prefix-sum table.**  For every string (valid UTF-8 or not) and every
+    rune index `0 ≤ i ≤ n`, the table behind `Capture.ByteRange` for string input — including its
+    "nil means identity" fast path — answers the byte offset of rune `i`. -/
+theorem stringByteOffsets_eq_prefixSums (segs : List (Int × Nat)) (hwf : WF segs) (i : Nat) (hi : i ≤ segs.length) :
+    offsetAt (stringByteOffsets segs) i = some (byteOffsetSpec segs i) := by
+  unfold stringByteOffsets byteOffsetSpec widths
+  exact offsetAt_lazy computedLen (·.2) true segs
+    (by intro s hs h1; rw [← computedLen_eq_width s (hwf s hs)]; exact h1) i hi
+
+example : (List.range 9).map (offsetAt (stringByteOffsets sample)) =
+    [0, 1, 3, 4, 7, 10, 14, 15, 16].map some := by decide
+example : stringByteOffsets [(97, 1), (98, 1)] = none := by decide
+
+/-- **The delta table + binary search of `FindAllStringIndex` is exact.**  For every string and
+    every rune index `0 ≤ i ≤ n`, `byteIndex i` on the table built by `newStringByteMapper` (or the
+    identity when the mapper is nil) is the byte offset of rune `i`. -/
+theorem stringByteMapper_eq (segs : List (Int × Nat)) (hwf : WF segs) (i : Nat) (hi : i ≤ segs.length) :
+    mapIndex (newStringByteMapper segs) i = byteOffsetSpec segs i := by
+  have hlin := linLookup_tbl segs 0 0 i hi
+  simp only [Nat.zero_add] at hlin
+  have hsum : byteOffsetSpec segs i = i + extra segs i := by
+    unfold byteOffsetSpec extra
+    rw [map_computedLen_eq segs hwf]
+    have h1 : ∀ w ∈ (widths segs).take i, 1 ≤ w := by
+      intro w hw
+      obtain ⟨s, hs, rfl⟩ := List.mem_map.mp (List.mem_of_mem_take hw)
+      exact (width_pos s (hwf s hs)).1
+    rw [sum_eq_len_add_extra _ h1]
+    have : i ≤ (widths segs).length := by simpa [widths] using hi
+    simp [List.length_take, Nat.min_eq_left this]
+  unfold newStringByteMapper
+  rw [nsbmLoop_none]
+  split
+  · rename_i hnil
+    rw [hnil] at hlin
+    simp only [mapIndex, hsum]
+    simp [linLookup] at hlin; omega
+  · simp only [mapIndex]
+    rw [byteIndex_eq_linLookup _ (tbl_sorted segs 0 0), hlin, hsum]
+
+example : (List.range 9).map (mapIndex (newStringByteMapper sample)) = [0, 1, 3, 4, 7, 10, 14, 15, 16] := by decide
+example : newStringByteMapper sample = some ⟨[2, 4, 5, 6], [1, 3, 5, 8]⟩ := by decide
+
+/-- **compat `bytesToRunesAndOffsets` is exact** (no decoding contract needed: it uses the decoder's
+    width directly): the runes are the decoded runes and the table answers the byte offset. -/
+theorem bytesToRunes_offsets_eq (segs : List (Int × Nat)) (i : Nat) (hi : i ≤ segs.length) :
+    (bytesToRunesAndOffsets segs).1 = runes segs ∧
+    offsetAt (bytesToRunesAndOffsets segs).2 i = some (byteOffsetSpec segs i) := by
+  refine ⟨rfl, ?_⟩
+  unfold bytesToRunesAndOffsets byteOffsetSpec widths
+  exact offsetAt_lazy (fun s : Int × Nat => s.2) (·.2) true segs (by intro s _ h; exact h) i hi
+
+example : (List.range 9).map (offsetAt (bytesToRunesAndOffsets sample).2) = [0, 1, 3, 4, 7, 10, 14, 15, 16].map some := by decide
+
+/-- **compat `readRunes` is exact**: the offsets of `FindReaderIndex`/`FindReaderSubmatchIndex`. -/
+theorem readRunes_offsets_eq (segs : List (Int × Nat)) (i : Nat) (hi : i ≤ segs.length) :
+    (readRunes segs).1 = runes segs ∧ (readRunes segs).2[i]? = some (byteOffsetSpec segs i) := by
+  unfold readRunes
+  rw [readRunesLoop_eq]
+  refine ⟨by simp, ?_⟩
+  have : [0] ++ (prefixSums (widths segs) 0).tail = prefixSums (widths segs) 0 := by
+    conv => rhs; rw [prefixSums_eq_cons_tail]
+    simp
+  simp only [this]
+  rw [prefixSums_get _ _ _ (by simpa [widths] using hi)]
+  simp [byteOffsetSpec]
+
+example : (readRunes sample).2 = [0, 1, 3, 4, 7, 10, 14, 15, 16] := by decide
+
+/-- **`runeByteOffsets` is the prefix-sum table of the re-encoded text** — for every rune slice,
+    including surrogates, negative values and values above U+10FFFF (each counted as the 3 bytes of
+    U+FFFD, which is what `string(runes)` writes for them). -/
+theorem runeByteOffsets_eq_encoded (rs : List Int) (i : Nat) (hi : i ≤ rs.length) :
+    offsetAt (runeByteOffsets rs) i = some (((rs.map encLen).take i).sum) := by
+  unfold runeByteOffsets
+  exact offsetAt_lazy encLen encLen false rs (by intro s _ h; exact h) i hi
+
+example : (List.range 6).map (offsetAt (runeByteOffsets [97, 0xD800, -5, 0x110000, 0x1F600])) =
+    [0, 1, 4, 7, 10, 14].map some := by decide
+
+/-- **`runeByteOffsets` agrees with the string tables on valid UTF-8**: if the string has no invalid
+    byte (every U+FFFD segment is a literal one), the rune-input table for its runes gives the same
+    byte offsets as the string. -/
+theorem runeByteOffsets_eq (segs : List (Int × Nat)) (hwf : WF segs)
+    (hvalid : ∀ s ∈ segs, s.1 = runeError → s.2 = 3) (i : Nat) (hi : i ≤ segs.length) :
+    offsetAt (runeByteOffsets (runes segs)) i = some (byteOffsetSpec segs i) := by
+  rw [runeByteOffsets_eq_encoded _ _ (by simpa [runes] using hi)]
+  have : (runes segs).map encLen = widths segs := by
+    unfold runes widths
+    rw [List.map_map]
+    apply List.map_congr_left
+    intro s hs; exact encLen_eq_width s (hwf s hs) (hvalid s hs)
+  rw [this]; rfl
+
+example : (List.range 4).map (offsetAt (runeByteOffsets (runes [(0xFFFD, 3), (0x1F600, 4), (97, 1)]))) =
+    (List.range 4).map (fun i => some (byteOffsetSpec [(0xFFFD, 3), (0x1F600, 4), (97, 1)] i)) := by decide
+
+/-- **All mappers agree.**  For every string and every rune span `[i, i+len)` inside it, the
+    byte span computed through `stringByteOffsets` (Match.ByteRange), through the delta table
+    (`FindAllStringIndex`), through compat's `bytesToRunesAndOffsets` (`FindAllIndex`) and through
+    `readRunes` (`FindReader*Index`) is one and the same pair of numbers. -/
+theorem mappers_agree (segs : List (Int × Nat)) (hwf : WF segs) (i : Nat) (hi : i ≤ segs.length) :
+    offsetAt (stringByteOffsets segs) i = some (mapIndex (newStringByteMapper segs) i) ∧
+    offsetAt (bytesToRunesAndOffsets segs).2 i = some (mapIndex (newStringByteMapper segs) i) ∧
+    (readRunes segs).2[i]? = some (mapIndex (newStringByteMapper segs) i) := by
+  rw [stringByteMapper_eq segs hwf i hi]
+  exact ⟨stringByteOffsets_eq_prefixSums segs hwf i hi, (bytesToRunes_offsets_eq segs i hi).2,
+    (readRunes_offsets_eq segs i hi).2⟩
+
+/-- **`ByteRange` is the byte span of exactly the addressed rune span**: index = bytes before rune
+    `ri`, length = sum of the widths of segments `ri … ri+rl-1` (each invalid byte counting as one
+    rune of one byte). -/
+theorem byteRange_is_span (segs : List (Int × Nat)) (hwf : WF segs) (ri rl : Nat) (h : ri + rl ≤ segs.length) :
+    byteRange (stringByteOffsets segs) ri rl =
+      some (byteOffsetSpec segs ri, (((widths segs).drop ri).take rl).sum) := by
+  have h1 := stringByteOffsets_eq_prefixSums segs hwf ri (by omega)
+  have h2 := stringByteOffsets_eq_prefixSums segs hwf (ri + rl) h
+  have hadd : byteOffsetSpec segs (ri + rl) = byteOffsetSpec segs ri + (((widths segs).drop ri).take rl).sum := by
+    unfold byteOffsetSpec; exact sum_take_add _ _ _
+  unfold byteRange
+  cases hbo : stringByteOffsets segs with
+  | none =>
+    rw [hbo] at h1 h2
+    simp only [offsetAt, Option.some.injEq] at h1 h2
+    simp only [Option.some.injEq, Prod.mk.injEq]
+    omega
+  | some l =>
+    rw [hbo] at h1 h2
+    simp only [offsetAt] at h1 h2
+    simp only [h1, h2, Option.some.injEq, Prod.mk.injEq, true_and]
+    omega
+
+example : byteRange (stringByteOffsets sample) 2 4 = some (3, 11) := by decide
+
+/-- the same for rune input: `ByteRange` is the span in the UTF-8 encoding of the rune slice. -/
+theorem byteRange_runes_is_span (rs : List Int) (ri rl : Nat) (h : ri + rl ≤ rs.length) :
+    byteRange (runeByteOffsets rs) ri rl =
+      some (((rs.map encLen).take ri).sum, (((rs.map encLen).drop ri).take rl).sum) := by
+  have h1 := runeByteOffsets_eq_encoded rs ri (by omega)
+  have h2 := runeByteOffsets_eq_encoded rs (ri + rl) h
+  have hadd := sum_take_add (rs.map encLen) ri rl
+  unfold byteRange
+  cases hbo : runeByteOffsets rs with
+  | none =>
+    rw [hbo] at h1 h2
+    simp only [offsetAt, Option.some.injEq] at h1 h2
+    simp only [Option.some.injEq, Prod.mk.injEq]
+    omega
+  | some l =>
+    rw [hbo] at h1 h2
+    simp only [offsetAt] at h1 h2
+    simp only [h1, h2, Option.some.injEq, Prod.mk.injEq, true_and]
+    omega
+
+/-- byte offsets are strictly increasing in the rune index: distinct rune positions have distinct
+    byte positions, so a byte span determines its rune span. -/
+theorem byteOffsetSpec_strictMono (segs : List (Int × Nat)) (hwf : WF segs) (i j : Nat) (hij : i < j)
+    (hj : j ≤ segs.length) : byteOffsetSpec segs i < byteOffsetSpec segs j := by
+  unfold byteOffsetSpec
+  apply sum_take_lt _ _ i j hij (by simpa [widths] using hj)
+  intro w hw
+  obtain ⟨s, hs, rfl⟩ := List.mem_map.mp hw
+  exact (width_pos s (hwf s hs)).1
+
+/-! ### byte index → rune index (start offsets of the string entry points) -/
+
+/-- **`decodeStringWithStart`/`getRunesAndStart` invert the mapping**: the byte offset of rune `i`
+    is reported as rune index `i`. -/
+theorem runeStart_of_offset (segs : List (Int × Nat)) (hwf : WF segs) (i : Nat) (hi : i ≤ segs.length) :
+    runeStart segs (byteOffsetSpec segs i : Nat) = (i : Int) := by
+  have := runeStartLoop_at segs (fun s hs => (width_pos s (hwf s hs)).1) 0 0 i (-1) hi
+  simpa [runeStart, byteOffsetSpec] using this
+
+/-- … and conversely a reported rune index `k ≥ 0` means the byte index given was exactly the
+    offset of rune `k` (a rune boundary); every other byte index yields −1. -/
+theorem offset_of_runeStart (segs : List (Int × Nat)) (b : Int) :
+    runeStart segs b = -1 ∨
+    ∃ k, k ≤ segs.length ∧ runeStart segs b = (k : Int) ∧ b = (byteOffsetSpec segs k : Nat) := by
+  rcases runeStartLoop_found b segs 0 0 (-1) with h | ⟨m, hm, h1, h2⟩
+  · left; exact h
+  · right; exact ⟨m, hm, by simpa [runeStart] using h1, by simpa [byteOffsetSpec] using h2⟩
+
+example : (List.range 17).map (fun b => runeStart sample (b : Nat)) =
+    [0, 1, -1, 2, 3, -1, -1, 4, -1, -1, 5, -1, -1, -1, 6, 7, 8] := by decide
+
 end RegexVerif.Props.C08
